@@ -14,6 +14,7 @@ import (
 	"fmt"
 	"io"
 	"sort"
+	"strconv"
 	"strings"
 
 	"github.com/davecgh/go-spew/spew"
@@ -26,6 +27,7 @@ import (
 	"github.com/hashicorp/consul/agent/consul/state"
 	"github.com/hashicorp/consul/agent/consul/stream"
 	"github.com/hashicorp/consul/agent/grpc-external/services/peerstream"
+	"github.com/hashicorp/consul/agent/netutil"
 	"github.com/hashicorp/consul/agent/structs"
 	"github.com/hashicorp/consul/api"
 	"github.com/hashicorp/consul/proto/private/pbcommon"
@@ -81,9 +83,9 @@ var _ peerstream.Backend = (*backend)(nil)
 func (b *backend) Subscribe(*stream.SubscribeRequest) (*stream.Subscription, error) {
 	return nil, fmt.Errorf("not supported")
 }
-func (b *backend) IsLeader() bool                                   { return true }
-func (b *backend) SetLeaderAddress(string)                          {}
-func (b *backend) GetLeaderAddress() string                         { return "" }
+func (b *backend) IsLeader() bool                                     { return true }
+func (b *backend) SetLeaderAddress(string)                            {}
+func (b *backend) GetLeaderAddress() string                           { return "" }
 func (b *backend) ValidateProposedPeeringSecret(string) (bool, error) { return true, nil }
 func (b *backend) PeeringSecretsWrite(*pbpeering.SecretsWriteRequest) error {
 	return fmt.Errorf("unexpected PeeringSecretsWrite")
@@ -101,7 +103,7 @@ func (b *backend) PeeringWrite(*pbpeering.PeeringWriteRequest) error {
 func (b *backend) CatalogRegister(req *structs.RegisterRequest) error {
 	b.w.Writes++
 	err := b.w.apply(structs.RegisterRequestType, req)
-	if err == nil && b.w.Fault == FaultTouchLocal && req.PeerName != "" && !b.w.faultDone {
+	if err == nil && b.w.armed && b.w.Fault == FaultTouchLocal && req.PeerName != "" && !b.w.faultDone {
 		// perturbation: a peer registration also rewrites the local node of the same name
 		if _, n, _ := b.w.Store().GetNode(req.Node, nil, ""); n != nil {
 			b.w.faultDone = true
@@ -113,7 +115,7 @@ func (b *backend) CatalogRegister(req *structs.RegisterRequest) error {
 
 func (b *backend) CatalogDeregister(req *structs.DeregisterRequest) error {
 	b.w.Writes++
-	if b.w.Fault == FaultDropDereg && req.ServiceID != "" && !b.w.faultDone {
+	if b.w.armed && b.w.Fault == FaultDropDereg && req.ServiceID != "" && !b.w.faultDone {
 		b.w.faultDone = true
 		return nil
 	}
@@ -123,13 +125,19 @@ func (b *backend) CatalogDeregister(req *structs.DeregisterRequest) error {
 // ---------------------------------------------------------------- world
 
 type World struct {
-	FSM    *fsm.FSM
-	Srv    *peerstream.Server
-	idx    uint64
-	msts   map[string]*peerstream.MutableStatus
-	Writes int
-	Fault  Fault
-	faultDone bool
+	FSM              *fsm.FSM
+	Srv              *peerstream.Server
+	idx              uint64
+	msts             map[string]*peerstream.MutableStatus
+	Writes           int
+	Fault            Fault
+	armed, faultDone bool // faults only fire inside the handlers under test
+}
+
+func init() {
+	// virtual-IP allocation asks the local agent for its bind address (IPv4 / dual stack); there is
+	// no agent here, so answer like the package's own tests do.
+	netutil.GetAgentBindAddrFunc = netutil.GetMockGetAgentBindAddrFunc("127.0.0.1")
 }
 
 func NewWorld(peers []string) (*World, error) {
@@ -147,6 +155,11 @@ func NewWorld(peers []string) (*World, error) {
 		Datacenter:     "dc1",
 		ConnectEnabled: true,
 	})
+	// what a real leader sets once all servers support virtual IPs (leader_connect / system metadata)
+	w.idx++
+	if err := w.Store().SystemMetadataSet(w.idx, &structs.SystemMetadataEntry{Key: structs.SystemMetadataVirtualIPsEnabled, Value: "true"}); err != nil {
+		return nil, err
+	}
 	for _, p := range peers {
 		if err := w.AddPeer(p); err != nil {
 			return nil, err
@@ -219,7 +232,8 @@ func ExportedService(svc string, snap []any) *pbpeerstream.ExportedService {
 			id := Str(i["id"])
 			kind, dest := svcKind(svc)
 			ns := &pbservice.NodeService{
-				Kind: kind, ID: id, Service: svc, Port: int32(8000 + Int(i["ver"])),
+				Kind: kind, ID: id, Service: svc, Port: int32(port(i["ver"])),
+				Tags: []string{Str(i["ver"])}, Meta: map[string]string{"v": Str(i["ver"])},
 				Weights:        &pbservice.Weights{Passing: 1, Warning: 1},
 				EnterpriseMeta: em,
 			}
@@ -227,18 +241,18 @@ func ExportedService(svc string, snap []any) *pbpeerstream.ExportedService {
 				ns.Proxy = &pbservice.ConnectProxyConfig{DestinationServiceName: dest, DestinationServiceID: dest}
 			}
 			csn := &pbservice.CheckServiceNode{
-				Node: &pbservice.Node{ID: string(nodeID(node)), Node: node, Address: Str(e["addr"]), Datacenter: "dc-remote"},
+				Node:    &pbservice.Node{ID: string(nodeID(node)), Node: node, Address: Str(e["addr"]), Datacenter: "dc-remote"},
 				Service: ns,
 			}
 			for _, c0 := range List(e["nchk"]) {
 				c := c0.(map[string]any)
 				csn.Checks = append(csn.Checks, &pbservice.HealthCheck{Node: node, CheckID: Str(c["cid"]), Name: "chk " + Str(c["cid"]),
-					Status: Str(c["st"]), EnterpriseMeta: em})
+					Status: Str(c["st"]), Output: Str(c["st"]), EnterpriseMeta: em})
 			}
 			for _, c0 := range List(i["schk"]) {
 				c := c0.(map[string]any)
 				csn.Checks = append(csn.Checks, &pbservice.HealthCheck{Node: node, CheckID: Str(c["cid"]), Name: "chk " + Str(c["cid"]),
-					Status: Str(c["st"]), ServiceID: id, ServiceName: svc, EnterpriseMeta: em})
+					Status: Str(c["st"]), Output: Str(c["st"]), ServiceID: id, ServiceName: svc, EnterpriseMeta: em})
 			}
 			out.Nodes = append(out.Nodes, csn)
 		}
@@ -261,6 +275,8 @@ func (w *World) Update(c M) M {
 	if err := w.AddPeer(p); err != nil {
 		return errRes(err)
 	}
+	w.armed = true
+	defer func() { w.armed = false }()
 	if b, _ := c["nil"].(bool); b {
 		return errRes(w.Srv.VerifHandleUpdateService(p, "default", structs.NewServiceName(svc, nil), nil))
 	}
@@ -281,6 +297,8 @@ func (w *World) ExportList(c M) M {
 	if err := w.AddPeer(p); err != nil {
 		return errRes(err)
 	}
+	w.armed = true
+	defer func() { w.armed = false }()
 	names := []string{}
 	for _, n := range List(c["names"]) {
 		names = append(names, Str(n))
@@ -312,7 +330,8 @@ func (w *World) Seed(c M) M {
 				return errRes(err)
 			}
 		}
-		if err := b.CatalogRegister(&structs.RegisterRequest{Datacenter: "dc1", ID: nodeID(n), Node: n, Address: Str(r["addr"]), PeerName: p}); err != nil {
+		if err := b.CatalogRegister(&structs.RegisterRequest{Datacenter: "dc1", ID: nodeID(n), Node: n, Address: Str(r["addr"]), PeerName: p,
+			NodeMeta: map[string]string{"a": Str(r["addr"])}, TaggedAddresses: map[string]string{"lan": Str(r["addr"])}}); err != nil {
 			return errRes(err)
 		}
 	}
@@ -320,7 +339,8 @@ func (w *World) Seed(c M) M {
 		r := r0.(map[string]any)
 		p, n, name := Str(r["peer"]), Str(r["node"]), Str(r["name"])
 		kind, dest := svcKind(name)
-		ns := &structs.NodeService{Kind: structs.ServiceKind(kind), ID: Str(r["id"]), Service: name, Port: 8000 + Int(r["ver"]),
+		ns := &structs.NodeService{Kind: structs.ServiceKind(kind), ID: Str(r["id"]), Service: name, Port: port(r["ver"]),
+			Tags: []string{Str(r["ver"])}, Meta: map[string]string{"v": Str(r["ver"])},
 			Weights: &structs.Weights{Passing: 1, Warning: 1}, PeerName: p}
 		if kind != "" {
 			ns.Proxy.DestinationServiceName = dest
@@ -334,13 +354,22 @@ func (w *World) Seed(c M) M {
 		r := r0.(map[string]any)
 		p, n := Str(r["peer"]), Str(r["node"])
 		hc := &structs.HealthCheck{Node: n, CheckID: types.CheckID(Str(r["cid"])), Name: "chk " + Str(r["cid"]), Status: Str(r["st"]),
-			ServiceID: Str(r["sid"]), PeerName: p}
+			Output: Str(r["st"]), ServiceID: Str(r["sid"]), PeerName: p}
 		if err := b.CatalogRegister(&structs.RegisterRequest{Datacenter: "dc1", Node: n, SkipNodeUpdate: true, PeerName: p, Check: hc}); err != nil {
 			return errRes(err)
 		}
 	}
 	// non-catalog local data hanging off the local nodes
 	s := w.Store()
+	if b, _ := c["gw"].(bool); b {
+		// a local ingress gateway that serves every local mesh service (wildcard): its
+		// gateway-services rows are derived data of the LOCAL cluster
+		w.idx++
+		if err := s.EnsureConfigEntry(w.idx, &structs.IngressGatewayConfigEntry{Kind: structs.IngressGateway, Name: "igw",
+			Listeners: []structs.IngressListener{{Port: 8080, Protocol: "http", Services: []structs.IngressService{{Name: "*"}}}}}); err != nil {
+			return errRes(err)
+		}
+	}
 	_, lnodes, _ := s.Nodes(nil, nil, "")
 	for _, n := range lnodes {
 		sid := UUID("session:" + n.Node)
@@ -378,7 +407,18 @@ func hashOf(item any) string {
 	return hex.EncodeToString(h[:6])
 }
 
-func status(s string) string { return s }
+// port encodes the abstract instance version (a decimal string) as the service port.
+func port(ver any) int {
+	n, _ := strconv.Atoi(Str(ver))
+	return 8000 + n
+}
+
+func first(l []string) string {
+	if len(l) > 0 {
+		return l[0]
+	}
+	return ""
+}
 
 // Catalog walks EVERY table of the real store. The three catalog tables are projected row by
 // row (modelled fields + x = hash of the complete row including its raft indexes); every other
@@ -393,11 +433,12 @@ func (w *World) Catalog() M {
 		}
 		switch r := item.(type) {
 		case *structs.Node:
-			nodes = append(nodes, M{"peer": r.PeerName, "node": r.Node, "addr": r.Address, "x": hashOf(r)})
+			nodes = append(nodes, M{"peer": r.PeerName, "node": r.Node, "addr": r.Address, "maddr": r.Meta["a"], "taddr": r.TaggedAddresses["lan"], "x": hashOf(r)})
 		case *structs.ServiceNode:
-			svcs = append(svcs, M{"peer": r.PeerName, "node": r.Node, "id": r.ServiceID, "name": r.ServiceName, "ver": r.ServicePort - 8000, "x": hashOf(r)})
+			svcs = append(svcs, M{"peer": r.PeerName, "node": r.Node, "id": r.ServiceID, "name": r.ServiceName, "ver": strconv.Itoa(r.ServicePort - 8000),
+				"tag": first(r.ServiceTags), "meta": r.ServiceMeta["v"], "x": hashOf(r)})
 		case *structs.HealthCheck:
-			chks = append(chks, M{"peer": r.PeerName, "node": r.Node, "cid": string(r.CheckID), "sid": r.ServiceID, "st": status(r.Status), "x": hashOf(r)})
+			chks = append(chks, M{"peer": r.PeerName, "node": r.Node, "cid": string(r.CheckID), "sid": r.ServiceID, "st": r.Status, "out": r.Output, "x": hashOf(r)})
 		case state.ServiceVirtualIP:
 			rest = append(rest, M{"peer": r.Service.Peer, "tbl": table, "x": hashOf(r)})
 		case *state.ServiceVirtualIP:
@@ -435,10 +476,11 @@ func (w *World) CSN(svc, peer string) ([]M, error) {
 	for _, c := range csns {
 		cks := []M{}
 		for _, k := range c.Checks {
-			cks = append(cks, M{"cid": string(k.CheckID), "sid": k.ServiceID, "st": status(k.Status)})
+			cks = append(cks, M{"cid": string(k.CheckID), "sid": k.ServiceID, "st": k.Status, "out": k.Output})
 		}
 		sort.Slice(cks, func(i, j int) bool { return Str(cks[i]["cid"]) < Str(cks[j]["cid"]) })
-		out = append(out, M{"node": c.Node.Node, "addr": c.Node.Address, "id": c.Service.ID, "ver": c.Service.Port - 8000, "checks": cks})
+		out = append(out, M{"node": c.Node.Node, "addr": c.Node.Address, "maddr": c.Node.Meta["a"], "taddr": c.Node.TaggedAddresses["lan"],
+			"id": c.Service.ID, "ver": strconv.Itoa(c.Service.Port - 8000), "tag": first(c.Service.Tags), "meta": c.Service.Meta["v"], "checks": cks})
 	}
 	sort.Slice(out, func(i, j int) bool {
 		return Str(out[i]["node"])+"\x00"+Str(out[i]["id"]) < Str(out[j]["node"])+"\x00"+Str(out[j]["id"])
@@ -504,12 +546,10 @@ func Export(c M, fault Fault) M {
 			return errRes(err)
 		}
 	}
-	if len(List(c["resolvers"])) > 0 {
-		// discovery chains are compiled against the cluster's trust domain
-		w.idx++
-		if err := s.CASetConfig(w.idx, &structs.CAConfiguration{ClusterID: "11111111-2222-3333-4444-555555555555"}); err != nil {
-			return errRes(err)
-		}
+	// discovery chains of connect-enabled exports are compiled against the cluster's trust domain
+	w.idx++
+	if err := s.CASetConfig(w.idx, &structs.CAConfiguration{ClusterID: "11111111-2222-3333-4444-555555555555"}); err != nil {
+		return errRes(err)
 	}
 	for _, r := range List(c["resolvers"]) {
 		w.idx++
